@@ -1,5 +1,6 @@
 //@unit lin_reg
 //@include head.rs
+//@export-begin
 
 // Σ age_i * s[i], age 0 = newest (last) element
 pub open spec fn asum(s: Seq<R>) -> real decreases s.len() {
@@ -233,5 +234,6 @@ pub proof fn lin_reg_const_step(pre: LinReg, v: R, post: LinReg, out: R)
 	assert((nr * (t * x) - t * (nr * x)) / det == 0real) by(nonlinear_arith) requires det >= 1real;
 	assert((nr * x - 0real * t) / nr == x) by(nonlinear_arith) requires nr >= 2real;
 }
+//@export-end
 } // verus!
 fn main() {}
